@@ -241,6 +241,17 @@ def payoff_ref(payoff_kind, notional, df, x):
     raise ValueError(payoff_kind)
 
 
+def payoff_ref_rows(payoff_kind, notional, df, xs):
+    """payoff_ref of every terminal value of xs at once: array of shape (len(xs), payoff_dim), the same floating-point
+    operations in the same order as payoff_ref (bit-identical rows)."""
+    xs = np.asarray(xs, dtype=float)
+    if payoff_kind == "forward":
+        return (notional * (xs - 0.0) * df)[:, None]
+    if payoff_kind in _PAYOFF_STRIKES:
+        return np.stack([notional * np.maximum(xs - k, 0.0) * df for k in _PAYOFF_STRIKES[payoff_kind]], axis=1)
+    raise ValueError(payoff_kind)
+
+
 def make_control_variates(kind, notional=1.0, maturity=1.0, dim=1):
     from rpylib.product.payoff import Forward
     from rpylib.product.product import ControlVariates, Product
